@@ -552,6 +552,10 @@ impl Check for C05 {
         // "None of these inputs makes a later phase recurse forever"
         true
     }
+    fn fuzz_families(&self, _tier: Tier) -> Vec<(&'static str, u64)> {
+        // libFuzzer runs per job (16 jobs), sized from the measured speed of the instrumented build
+        vec![("random", 15000)]
+    }
     fn families(&self, tier: Tier) -> Vec<Family<'_>> {
         let graph_case = |cx: &mut CaseCtx, g: Graph| -> CaseResult {
             let on_wrapper = g.edges.iter().any(|e| e.2 != 0);
